@@ -175,6 +175,10 @@ pub fn main(args: &Args) -> i32 {
         sweep::worker(sh, oracle);
         return 0;
     }
+    let demo_check = |d: &crate::demos::Demo| check_artifacts(&d.arts, d.config["options"]["include_file_extensions_in_import_statements"].as_bool().unwrap_or(false));
+    if let Some(code) = crate::demos::replay_if_demo(args, &demo_check) {
+        return code;
+    }
     if args.replay.is_some() {
         return sweep::replay(args);
     }
@@ -192,9 +196,14 @@ pub fn main(args: &Args) -> i32 {
     for v in res.violations {
         verdict.add(v);
     }
+    let (demo_violations, demo_artifacts) = crate::demos::violations(&demo_check);
+    for v in demo_violations {
+        verdict.add(v);
+    }
     verdict.violations.sort_by_key(|v| v.what.len());
     let (code, n_new, known) = verdict.conclude("comp_mc/c13");
     ev.violations = n_new as i64;
+    ev.set("demo_projects", json!(crate::demos::DEMOS)).set("demo_artifacts", demo_artifacts);
     ev.set("evaluations", res.stats.programs)
         .set("distinct_nontrivial", res.stats.accepted)
         .set("rule", "every program of the stated families compiled by the real compiler; every .ts artifact parsed as a TypeScript module with swc_ecma_parser, every .json with serde_json, every relative import resolved against the artifact set; every accepted program again under the all-options configuration and over the schema with hostile descriptions (comment terminators, quotes, backslashes, template syntax), small programs (<= 8 literal lines) under every listed option set; non-trivial = accepted programs")
